@@ -27,6 +27,7 @@ import (
 	"sync"
 	"sync/atomic"
 	"testing"
+	"testing/fstest"
 
 	"github.com/tetratelabs/wazero"
 	"pgregory.net/rapid"
@@ -91,6 +92,7 @@ type seedEnt struct {
 type histCase struct {
 	Kind  string    `json:"kind"`
 	NPre  int       `json:"npre"`
+	Mount string    `json:"mount,omitempty"` // "" / "dir": WithDirMount; "dirfs": WithFSMount(os.DirFS(dir)); "mapfs": WithFSMount(fstest.MapFS)
 	Seed  []seedEnt `json:"seed,omitempty"`
 	Steps []step    `json:"steps"`
 }
@@ -107,6 +109,8 @@ type world struct {
 	dirs  []string
 	steps []step
 
+	mount     string // mount kind, see histCase.Mount
+	maps      []fstest.MapFS
 	many      bool // generator mode: hold many descriptors open (table growth at 64/128/192)
 	maxOpen   int
 	lastErrno uint32 // errno of the most recent WASI call
@@ -118,8 +122,9 @@ type world struct {
 	secondWord    bool
 }
 
-func newWorld(npre int, seed ...seedEnt) (*world, error) {
-	w := &world{ctx: context.Background(), m: fsmodel.New(npre)}
+func newWorld(npre int, mount string, seed ...seedEnt) (*world, error) {
+	w := &world{ctx: context.Background(), m: fsmodel.New(npre), mount: mount}
+	w.m.ReadOnly = mount == "dirfs" || mount == "mapfs"
 	w.base = filepath.Join(evid.WorkDir(), fmt.Sprintf("case-%d", caseCounter.Add(1)))
 	os.RemoveAll(w.base)
 	fsc := wazero.NewFSConfig()
@@ -129,24 +134,25 @@ func newWorld(npre int, seed ...seedEnt) (*world, error) {
 			return nil, err
 		}
 		w.dirs = append(w.dirs, d)
+		w.maps = append(w.maps, fstest.MapFS{})
 		guest := "/"
 		if i > 0 {
 			guest = fmt.Sprintf("/m%d", i)
 		}
-		fsc = fsc.WithDirMount(d, guest)
+		switch mount {
+		case "dirfs":
+			fsc = fsc.WithFSMount(os.DirFS(d), guest)
+		case "mapfs":
+			fsc = fsc.WithFSMount(w.maps[i], guest)
+		default:
+			fsc = fsc.WithDirMount(d, guest)
+		}
 	}
 	for _, e := range seed {
 		if !w.m.Seed(0, e.Path, e.Dir, []byte(e.Data)) {
 			continue
 		}
-		hp := filepath.Join(w.dirs[0], filepath.FromSlash(e.Path))
-		var err error
-		if e.Dir {
-			err = os.Mkdir(hp, 0o755)
-		} else {
-			err = os.WriteFile(hp, []byte(e.Data), 0o644)
-		}
-		if err != nil {
+		if err := w.hostCreate(0, e.Path, e.Dir, e.Data); err != nil {
 			return nil, err
 		}
 	}
@@ -158,6 +164,31 @@ func newWorld(npre int, seed ...seedEnt) (*world, error) {
 	}
 	w.p = p
 	return w, nil
+}
+
+// hostCreate / hostRemove change what is behind mount i directly (not through the guest).
+func (w *world) hostCreate(i int, p string, dir bool, data string) error {
+	if w.mount == "mapfs" {
+		if dir {
+			w.maps[i][p] = &fstest.MapFile{Mode: fs.ModeDir | 0o755}
+		} else {
+			w.maps[i][p] = &fstest.MapFile{Data: []byte(data), Mode: 0o644}
+		}
+		return nil
+	}
+	hp := filepath.Join(w.dirs[i], filepath.FromSlash(p))
+	if dir {
+		return os.Mkdir(hp, 0o755)
+	}
+	return os.WriteFile(hp, []byte(data), 0o644)
+}
+
+func (w *world) hostRemove(i int, p string) error {
+	if w.mount == "mapfs" {
+		delete(w.maps[i], p)
+		return nil
+	}
+	return os.Remove(filepath.Join(w.dirs[i], filepath.FromSlash(p)))
 }
 
 func (w *world) close() {
@@ -738,6 +769,19 @@ func (w *world) finalCheck() string {
 	for i, root := range w.m.Roots {
 		want := fsmodel.Tree(root)
 		got := map[string]string{}
+		if w.mount == "mapfs" {
+			for k, f := range w.maps[i] {
+				if f.Mode&fs.ModeDir != 0 {
+					got[k] = "dir"
+				} else {
+					got[k] = "file:" + string(f.Data)
+				}
+			}
+			if d := diffTrees(want, got); d != "" {
+				return fmt.Sprintf("after the history the MapFS behind mount %d differs from the model tree: %s", i, d)
+			}
+			continue
+		}
 		base := w.dirs[i]
 		err := filepath.WalkDir(base, func(p string, d fs.DirEntry, err error) error {
 			if err != nil {
@@ -990,8 +1034,11 @@ func (w *world) genPath(t *rapid.T, dirfd int32, want string, allowDot bool) str
 
 // genSeed draws a small initial tree for mount 0 (0-7 entries, directories first so that
 // nested names find their parents).
-func genSeed(t *rapid.T) []seedEnt {
+func genSeed(t *rapid.T, rich bool) []seedEnt {
 	n := rapid.IntRange(0, 7).Draw(t, "nseed")
+	if rich {
+		n = rapid.IntRange(3, 14).Draw(t, "nseedrich")
+	}
 	var out []seedEnt
 	var dirs []string
 	taken := map[string]bool{}
@@ -1081,6 +1128,9 @@ func (w *world) genMany(t *rapid.T) (step, bool) {
 		case strings.Contains(flags, "w"):
 			want = "file"
 		}
+		if w.m.ReadOnly && flags != "rd" {
+			flags = "r"
+		}
 		return step{Op: "path_open", FD: fd, Path: w.genPath(t, fd, want, false), Flags: flags}, true
 	case r < 17:
 		var closable []int32
@@ -1164,6 +1214,9 @@ func (w *world) genStep0(t *rapid.T) step {
 		}
 	}
 	s := w.genStep1(t)
+	if w.m.ReadOnly {
+		s = w.roAdjust(t, s)
+	}
 	switch s.Op {
 	case "path_open", "path_filestat_get", "path_create_directory", "path_remove_directory", "path_unlink_file":
 		s.Path = w.spell(t, s.Op, s.FD, s.Path)
@@ -1172,6 +1225,31 @@ func (w *world) genStep0(t *rapid.T) step {
 		s.Path2 = w.spell(t, s.Op, s.To, s.Path2)
 		if w.m.RenameSameMissing(s.FD, s.Path, s.To, s.Path2) && renameSameMissingBroken() {
 			s.Path2 += "x"
+		}
+	}
+	return s
+}
+
+// roAdjust adapts a step to a read-only (fs.FS) mount: opens ask for reading only (what a
+// write/create open does on a read-only mount belongs to C17), and most write-type
+// descriptor calls give way to directory listings, the part where fs.FS mounts have their own
+// implementation. Mutating path calls stay: they must fail and leave the tree alone.
+func (w *world) roAdjust(t *rapid.T, s step) step {
+	switch s.Op {
+	case "path_open":
+		if strings.ContainsAny(s.Flags, "wctax") {
+			evid.Label("narrow-ro-mount-write-open", 1)
+			fl := "r"
+			if strings.Contains(s.Flags, "f") {
+				fl += "f"
+			}
+			s.Flags = fl
+		}
+	case "fd_write", "fd_pwrite", "fd_filestat_set_size":
+		if rapid.IntRange(0, 3).Draw(t, "listinstead") != 3 {
+			c := w.classes()
+			return step{Op: "fd_readdir", FD: pickFD(t, c.dirs, c.files, c.closed),
+				Buf: rapid.SampledFrom([]uint32{24, 26, 32, 51, 64, 100, 256, 4096, 25, 52}).Draw(t, "buf")}
 		}
 	}
 	return s
@@ -1420,7 +1498,7 @@ func TestRenameSameMissing(t *testing.T) {
 
 // runHistory executes a recorded history without rapid.
 func runHistory(c histCase) string {
-	w, err := newWorld(c.NPre, c.Seed...)
+	w, err := newWorld(c.NPre, c.Mount, c.Seed...)
 	if err != nil {
 		return "harness: " + err.Error()
 	}
@@ -1448,8 +1526,11 @@ func (w *world) finish() string {
 
 func runHistoryProp(t *rapid.T) {
 	npre := rapid.SampledFrom([]int{1, 1, 1, 2}).Draw(t, "npre")
-	seed := genSeed(t)
-	w, err := newWorld(npre, seed...)
+	// mount kind: most histories use the writable directory mount; the read-only fs.FS
+	// mounts (other File implementation in wazero: fsFile) get a richer seed tree
+	mount := rapid.SampledFrom([]string{"dir", "dir", "dir", "dir", "dirfs", "dir", "mapfs", "dir", "dirfs", "dir"}).Draw(t, "mount")
+	seed := genSeed(t, mount != "dir")
+	w, err := newWorld(npre, mount, seed...)
 	if err != nil {
 		t.Fatalf("harness: %v", err)
 	}
@@ -1461,7 +1542,9 @@ func runHistoryProp(t *rapid.T) {
 		w.many = true
 		n = rapid.IntRange(70, 300).Draw(t, "manysteps")
 	}
-	cs := func() histCase { return histCase{Kind: "history", NPre: npre, Seed: seed, Steps: w.steps} }
+	cs := func() histCase {
+		return histCase{Kind: "history", NPre: npre, Mount: mount, Seed: seed, Steps: w.steps}
+	}
 	for k := 0; k < n; k++ {
 		s := w.genStep(t)
 		msg := w.apply(s)
@@ -1499,6 +1582,7 @@ func runHistoryProp(t *rapid.T) {
 	if w.many {
 		lbl = append(lbl, "hist-many-descriptors")
 	}
+	lbl = append(lbl, "hist-mount-"+mount)
 	for _, lim := range []int{64, 128, 192} {
 		if w.maxOpen > lim {
 			lbl = append(lbl, fmt.Sprintf("hist-more-than-%d-open-at-once", lim))
